@@ -1857,12 +1857,12 @@ HTIcount_dd(filerec_t *file_rec, uint16 cnt_tag, uint16 cnt_ref, unsigned *all_c
 
                         idx    = 0;
                         dd_ptr = block->ddlist;
-                        if (block->ndds % 2 == 1)
-                            if (dd_ptr->tag == cnt_tag || dd_ptr->tag == special_tag) {
+                        if (block->ndds % 2 == 1) {
+                            if (dd_ptr->tag == cnt_tag || dd_ptr->tag == special_tag)
                                 t_real_cnt++;
-                                idx++;
-                                dd_ptr++;
-                            } /* end if */
+                            idx++;
+                            dd_ptr++;
+                        } /* end if */
                         for (; idx < block->ndds; idx++, dd_ptr++) {
                             if (dd_ptr->tag == cnt_tag || dd_ptr->tag == special_tag)
                                 t_real_cnt++;
